@@ -197,6 +197,7 @@ static void init_basis (
 	EGLPNUM_TYPENAME_QSdata * p);
 
 static int opt_work ( EGLPNUM_TYPENAME_QSdata * p, int *status, int primal_or_dual),
+  basis_arrays_check ( int nstruct, int nrows, const char *cstat, const char *rstat),
   qsbasis_check ( QSbasis * qB),
   qsbasis_to_illbasis ( QSbasis * qB, EGLPNUM_TYPENAME_ILLlp_basis * B),
   illbasis_to_qsbasis ( EGLPNUM_TYPENAME_ILLlp_basis * B, QSbasis * qB),
@@ -1835,6 +1836,10 @@ EGLPNUM_TYPENAME_QSLIB_INTERFACE int EGLPNUM_TYPENAME_QSload_basis_array (
 		goto CLEANUP;
 	}
 
+	/* nothing of the problem is touched before the arrays have been accepted */
+	rval = basis_arrays_check (qslp->nstruct, qslp->nrows, cstat, rstat);
+	CHECKRVALG (rval, CLEANUP);
+
 	if (p->basis == 0)
 	{
 		ILL_SAFE_MALLOC (p->basis, 1, EGLPNUM_TYPENAME_ILLlp_basis);
@@ -2068,24 +2073,64 @@ CLEANUP:
 }
 
 /* a basis must have exactly one basic variable per row */
-static int qsbasis_check (
-	QSbasis * qB)
+/* the status arrays of a basis handed in by the caller: every entry is one of
+ * the status letters and there is exactly one basic entry per row */
+static int basis_arrays_check (
+	int nstruct,
+	int nrows,
+	const char *cstat,
+	const char *rstat)
 {
 	int rval = 0;
 	int i;
 	int nbas = 0;
 
-	for (i = 0; i < qB->nstruct; i++)
+	for (i = 0; i < nstruct; i++)
 	{
-		if(qB->cstat[i] == QS_COL_BSTAT_BASIC) nbas++;
+		if (cstat[i] != QS_COL_BSTAT_BASIC && cstat[i] != QS_COL_BSTAT_LOWER &&
+				cstat[i] != QS_COL_BSTAT_UPPER && cstat[i] != QS_COL_BSTAT_FREE)
+		{
+			QSlog("Received basis is not valid: unknown column status %d", cstat[i]);
+			rval = 1;
+			ILL_CLEANUP;
+		}
+		if (cstat[i] == QS_COL_BSTAT_BASIC)
+			nbas++;
 	}
 
-	for (i = 0; i < qB->nrows; i++)
+	for (i = 0; i < nrows; i++)
 	{
-		if(qB->rstat[i] == QS_ROW_BSTAT_BASIC) nbas++;
+		if (rstat[i] != QS_ROW_BSTAT_BASIC && rstat[i] != QS_ROW_BSTAT_LOWER &&
+				rstat[i] != QS_ROW_BSTAT_UPPER)
+		{
+			QSlog("Received basis is not valid: unknown row status %d", rstat[i]);
+			rval = 1;
+			ILL_CLEANUP;
+		}
+		if (rstat[i] == QS_ROW_BSTAT_BASIC)
+			nbas++;
 	}
 
-	if(nbas != qB->nrows)
+	if (nbas != nrows)
+	{
+		QSlog("Received basis is not valid: %d basic entries for %d rows", nbas,
+								nrows);
+		rval = 1;
+		ILL_CLEANUP;
+	}
+
+CLEANUP:
+
+	EG_RETURN (rval);
+}
+
+static int qsbasis_check (
+	QSbasis * qB)
+{
+	int rval = 0;
+
+	rval = basis_arrays_check (qB->nstruct, qB->nrows, qB->cstat, qB->rstat);
+	if (rval)
 	{
 		QSlog("Received basis is not valid, in qsbasis_to_illbasis");
 		rval = 1;
